@@ -3,6 +3,7 @@ package c19
 import (
 	"bytes"
 	"context"
+	"errors"
 	"fmt"
 	"log/slog"
 	"path/filepath"
@@ -16,6 +17,7 @@ import (
 	"pgregory.net/rapid"
 
 	"github.com/form3tech-oss/f1/v2/internal/ui"
+	"github.com/form3tech-oss/f1/v2/internal/verifhook"
 	f1testing "github.com/form3tech-oss/f1/v2/pkg/f1/testing"
 	"github.com/form3tech-oss/f1/v2/verifharness/vlib"
 )
@@ -135,16 +137,32 @@ func TestProp_DisplayedSummary(t *testing.T) {
 			spec.Mode = "constant"
 			spec.Flags = map[string]string{"rate": "0/10ms", "distribution": "none"}
 		}
+		// fault injection (runs that log to a file, 1 in 3): closing the scenario log file fails, as on a
+		// full disk. Whatever f1 makes of that, the summary it displays and the result it returns agree.
+		closeFails := logPath != "" && rapid.IntRange(0, 2).Draw(rt, "logFileCloseFails") == 0
+		if closeFails {
+			verifhook.SetFault(func(point string) error {
+				if point == "scenariolog.close" {
+					return errors.New("injected: no space left on device")
+				}
+				return nil
+			})
+			defer verifhook.ClearFault()
+		}
 		out, err := vlib.Execute(spec)
+		verifhook.ClearFault()
 		if err != nil {
 			rt.Fatalf("VERIF-INFRA: cannot execute: %v", err)
 		}
 		failed, resErr := out.Result.Failed(), out.Result.Error()
 		snap := out.Result.Snapshot()
-		desc := fmt.Sprintf("users N=%d failEvery=%d setup=%s max-failures=%d form=%s straggler=%v", n, failEvery, setup, maxFailures, form, straggler)
+		desc := fmt.Sprintf("users N=%d failEvery=%d setup=%s max-failures=%d form=%s straggler=%v", n, failEvery, setup, maxFailures, form, straggler) + map[bool]string{true: " log-file-close-fails"}[closeFails]
 		cls := []string{"form-" + form, "setup-" + setup}
 		if straggler {
 			cls = append(cls, "iteration-finishes-during-teardown")
+		}
+		if closeFails {
+			cls = append(cls, "closing-the-log-file-fails")
 		}
 		if failed {
 			cls = append(cls, "verdict-failed")
